@@ -83,9 +83,10 @@ void SoPlexBase<R>::_optimize(volatile bool* interrupt)
    _lastSolveMode = SOLVEMODE_REAL;
 
    // solve and store solution; if we have a starting basis, do not apply preprocessing; if we are solving from
-   // scratch, apply preprocessing according to parameter settings
-   if(!_hasBasis && realParam(SoPlexBase<R>::OBJLIMIT_LOWER) == -realParam(SoPlexBase<R>::INFTY)
-         && realParam(SoPlexBase<R>::OBJLIMIT_UPPER) == realParam(SoPlexBase<R>::INFTY))
+   // scratch, apply preprocessing according to parameter settings; an objective limit at or beyond the infinity
+   // threshold is no limit (the defaults are +/-1e100 also when the threshold INFTY has been lowered)
+   if(!_hasBasis && realParam(SoPlexBase<R>::OBJLIMIT_LOWER) <= -realParam(SoPlexBase<R>::INFTY)
+         && realParam(SoPlexBase<R>::OBJLIMIT_UPPER) >= realParam(SoPlexBase<R>::INFTY))
       _preprocessAndSolveReal(true, interrupt);
    else
       _preprocessAndSolveReal(false, interrupt);
